@@ -50,6 +50,9 @@ def cases(tier, seed):
                 if op == 'amen_mm':
                     s['K'] = [((m + n) % 2) + 1 for m, n in zip(M, N)]
                 cs.append({'scen': 'product_structure', 's': s})
+    # an operand doubles as the initial guess
+    cs.append({'scen': 'product_structure', 's': {'op': 'dmrg_hadamard', 'N': [3, 2], 'RA': [1, 2, 1], 'Rx': [1, 2, 1], 'kw': {'nswp': 1}, 'guess_is': 'operand'}})
+    cs.append({'scen': 'product_structure', 's': {'op': 'dmrg_hadamard', 'N': [2, 2, 3], 'RA': [1, 2, 2, 1], 'Rx': [1, 1, 2, 1], 'kw': {'nswp': 1}, 'guess_is': 'operand'}})
     return cs
 
 
